@@ -4,7 +4,11 @@
 // randomises map iteration), and the verdict is compared with the
 // specification's declarative verdict; accepted programs are run and their
 // output compared with the specification's run-time model (arrays by
-// reference, scalars by value, fresh local arrays).  In the other direction a
+// reference, scalars by value, fresh local arrays).  An argument of a call or
+// of length() has a FORM (Resolver.tla): the bare variable x, the
+// parenthesised variable (x), an expression x "", an element x[length(x)], or
+// a constant; only the bare variable can be an array, every other form is a
+// scalar value whatever it names.  In the other direction a
 // seeded driver generates richer programs, records what the real resolver
 // decided (verdict, types and indexes via ParserConfig.DebugTypes, output) and
 // Trace_Resolver.tla validates the records.
@@ -20,9 +24,25 @@ import (
 	"github.com/benhoyt/goawk/verifharness/hx"
 )
 
+// Var is a variable reference ("L" parameter, "G" global) or a constant ("C");
+// Fm is the form in which it is written as an argument of a call or of
+// length(): "v" (or empty) bare, "p" parenthesised, "e" inside an expression,
+// "x" an element of it.
 type Var struct {
 	Sc string `json:"sc"`
 	I  int    `json:"i"`
+	Fm string `json:"fm,omitempty"`
+}
+
+// Form returns the argument form, "c" for a constant.
+func (v Var) Form() string {
+	if v.Sc == "C" {
+		return "c"
+	}
+	if v.Fm == "" {
+		return "v"
+	}
+	return v.Fm
 }
 
 type Stmt struct {
@@ -132,6 +152,27 @@ func varName(nm *Naming, f int, v Var) string {
 	return `"c"`
 }
 
+// exprText writes a variable in the given argument form.  The parenthesised
+// and the expression form have two spellings each (chosen by the place).
+func exprText(name, form string, alt int) string {
+	switch form {
+	case "p":
+		if alt%2 == 1 {
+			return "((" + name + "))"
+		}
+		return "(" + name + ")"
+	case "e":
+		if alt%2 == 1 {
+			return `"" ` + name
+		}
+		return name + ` ""`
+	case "x":
+		// an element the array does not have yet (its elements are numbered 0..n-1): Resolver!ExprVal/ExprMem
+		return name + "[length(" + name + ")]"
+	}
+	return name
+}
+
 func kcode(k string) string {
 	if k == "len" {
 		return "l"
@@ -173,15 +214,19 @@ func renderStmt(sb *strings.Builder, nm *Naming, f, i int, st Stmt, salt int) {
 		}
 		fmt.Fprintf(sb, "; printf \"%d.%d a %%d\\n\", length(%s)\n", f, i, v)
 	case "len":
-		v := varName(nm, f, *st.V)
+		v := `"c"` // the constant operand of length() has one character (Resolver!ExecBody)
+		if st.V.Sc != "C" {
+			v = exprText(varName(nm, f, *st.V), st.V.Form(), form)
+		}
 		fmt.Fprintf(sb, "printf \"%d.%d l %%d\\n\", length(%s)\n", f, i, v)
 	case "call":
 		args := make([]string, len(st.Args))
 		for j, a := range st.Args {
-			args[j] = varName(nm, f, a)
 			if a.Sc == "C" {
 				// the constant passed as argument number j has j characters (Resolver!BuildFrame)
 				args[j] = `"` + strings.Repeat("c", j+1) + `"`
+			} else {
+				args[j] = exprText(varName(nm, f, a), a.Form(), form+j)
 			}
 		}
 		call := nm.Func(st.F) + "(" + strings.Join(args, ", ") + ")"
@@ -287,7 +332,42 @@ func Orders(n int) [][]int {
 
 // ---- classification of a program (for signatures and non-triviality) ----
 
+// formClass names the argument forms other than bare variable and constant
+// that the program contains: "arg-<form>" for an argument of a call,
+// "length-<form>" for the operand of length(); when there are several, the
+// first of paren, expr, elem (arguments before length) names the program.
+// Empty when there is none.
+func formClass(p *Prog) string {
+	seen := map[string]bool{}
+	scan := func(body []Stmt) {
+		for _, st := range body {
+			if st.K == "len" && st.V != nil {
+				seen["length-"+st.V.Form()] = true
+			}
+			for _, a := range st.Args {
+				seen["arg-"+a.Form()] = true
+			}
+		}
+	}
+	scan(p.Main)
+	for _, fn := range p.Funcs {
+		scan(fn.Body)
+	}
+	names := map[string]string{"p": "paren", "e": "expr", "x": "elem"}
+	for _, fm := range []string{"p", "e", "x"} {
+		for _, place := range []string{"arg-", "length-"} {
+			if seen[place+fm] {
+				return place + names[fm]
+			}
+		}
+	}
+	return ""
+}
+
 func class(p *Prog) string {
+	if fc := formClass(p); fc != "" {
+		return fc
+	}
 	rec, cst, fwd := false, false, false
 	scan := func(f int, body []Stmt) {
 		for _, st := range body {
